@@ -356,6 +356,7 @@ us), `stop<n>` -/
 structure Thread where
   name  : String
   kind  : Kind
+  peer  : Nat := 0
   conn  : Option Nat := none     -- current connection (send/inc)
   conns : List Nat := []         -- every connection it ever had, for naming the receive loops
   fin   : Option String := none  -- set when the goroutine has returned
@@ -369,6 +370,9 @@ structure State where
   threads : List Thread := []
   nstops  : Nat := 0
   msgs    : Nat := 0
+  srv     : Option (Srv × Ov) := none
+  startedOk : List Bool := []    -- per `srvstart`: did it succeed
+  doneL   : List Nat := []       -- starts already declared done
   deriving Repr
 
 def init : State := {}
@@ -487,27 +491,29 @@ def release (d : State) (name : String) : Option State :=
               let s ← step true d.core (.register ci)
               let c' ← s.conns[ci]?
               let d := { d with core := s }
-              pure (if c'.setup = .err then setThread d ti { t with fin := some "err" } else d)
+              pure (if c'.setup = .err then
+                      setThread d ti { t with fin := some (if t.kind = .inc then "done" else "err") } else d)
             | .registered => do
               let s ← step true d.core (.launch ci)
               let c' ← s.conns[ci]?
               let d := { d with core := s }
-              if c'.setup = .err then pure (setThread d ti { t with fin := some "err" })
-              else pure (setThread d ti { t with fin := some "ok" })
+              if c'.setup = .err then
+                pure (setThread d ti { t with fin := some (if t.kind = .inc then "done" else "err") })
+              else pure (setThread d ti { t with fin := some (if t.kind = .inc then "done" else "ok") })
             | _ => none
 
 /-- `init` | `send <k>` | `resend <k>` | `in <k>` | `stop` | `rel <name>` | `msg <k>` | `peerclose <k>` | `fin` -/
 def step (d : State) (toks : List String) : State × String :=
   let reply (d : State) := let d := settle 50 d; (d, view d)
   match toks with
-  | ["init"] => ({}, "ok")
+  | ["init", tr] => if tr = "local" ∨ tr = "tcp" then ({}, "ok") else (d, "bad-op")
   | ["send", k] =>
     match k.toNat? with
     | some k =>
       if (findThread d s!"s{k}").isSome || (findThread d s!"i{k}").isSome then (d, "bad-op") else
       let ci := d.core.conns.length
       let s := (C10.step true d.core .dial).getD d.core
-      reply { d with core := s, threads := d.threads ++ [{ name := s!"s{k}", kind := .send, conn := some ci, conns := [ci] }] }
+      reply { d with core := s, threads := d.threads ++ [{ name := s!"s{k}", kind := .send, peer := k, conn := some ci, conns := [ci] }] }
     | none => (d, "bad-op")
   | ["resend", k] =>
     match k.toNat? with
@@ -520,12 +526,12 @@ def step (d : State) (toks : List String) : State × String :=
         let cur := t.conns.find? fun ci => match d.core.conns[ci]? with | some c => c.inTable | none => false
         let usable := match cur.bind (d.core.conns[·]?) with | some c => c.isOpen | none => false
         if usable then
-          reply { d with threads := d.threads ++ [{ name := s!"r{k}", kind := .send, fin := some "ok" }] }
+          reply { d with threads := d.threads ++ [{ name := s!"r{k}", kind := .send, peer := k, fin := some "ok" }] }
         else
           -- no connection, or `c.Send` fails on the closed one: connect (324-333, 340-350)
           let ci := d.core.conns.length
           let s := (C10.step true d.core .dial).getD d.core
-          reply { d with core := s, threads := d.threads ++ [{ name := s!"r{k}", kind := .send, conn := some ci, conns := [ci] }] }
+          reply { d with core := s, threads := d.threads ++ [{ name := s!"r{k}", kind := .send, peer := k, conn := some ci, conns := [ci] }] }
       | none => (d, "bad-op")
     | none => (d, "bad-op")
   | ["in", k] =>
@@ -538,9 +544,9 @@ def step (d : State) (toks : List String) : State × String :=
         let s := (C10.step true s (.identity ci true)).getD s
         -- the peer's `Send` goes on: its message is on the wire
         let s := (C10.step true s (.peerSend ci (1000 + k))).getD s
-        reply { d with core := s, threads := d.threads ++ [{ name := s!"i{k}", kind := .inc, conn := some ci, conns := [ci] }] }
+        reply { d with core := s, threads := d.threads ++ [{ name := s!"i{k}", kind := .inc, peer := k, conn := some ci, conns := [ci] }] }
       | none =>
-        reply { d with threads := d.threads ++ [{ name := s!"i{k}", kind := .inc, fin := some "norun" }] }
+        reply { d with threads := d.threads ++ [{ name := s!"i{k}", kind := .inc, peer := k, fin := some "norun" }] }
     | none => (d, "bad-op")
   | ["stop"] =>
     let j := d.core.stops.length
@@ -570,16 +576,76 @@ def step (d : State) (toks : List String) : State × String :=
     | some k =>
       let t? := match findThread d s!"s{k}" with | some x => some x | none => findThread d s!"i{k}"
       match t? with
-      | some (_, t) =>
-        let s := t.conns.foldl (fun s ci => (C10.step true s (.peerClose ci)).getD s) d.core
+      | some _ =>
+        -- the peer closes every connection it has with us
+        let cs := (d.threads.filter fun t => t.kind != .stop && t.peer = k).flatMap (·.conns)
+        let s := cs.foldl (fun s ci => (C10.step true s (.peerClose ci)).getD s) d.core
         reply { d with core := s }
       | none => (d, "bad-op")
     | none => (d, "bad-op")
   | ["fin"] =>
-    -- the final report: which connections are closed (as the peers see it), whether everything
-    -- has come to rest, and how many messages were dispatched after a `Stop` had returned
-    let closed := d.core.conns.map fun c => if c.isOpen then "0" else "1"
-    (d, s!"closed={if closed.isEmpty then "-" else ",".intercalate closed} rest={quiescent d.core} {view d}")
+    -- the final report: which peers still hold an open connection to us, whether every
+    -- goroutine of the router has come to rest, and the last view
+    let peers := (d.threads.filter (·.kind != .stop)).map (·.peer) |>.eraseDups
+    let openPeers := peers.filter fun k =>
+      d.threads.any fun t => t.kind != .stop && t.peer = k &&
+        t.conns.any fun ci => match d.core.conns[ci]? with | some c => c.isOpen | none => false
+    (d, s!"open={Util.showNatList openPeers} rest={quiescent d.core} {view d}")
+  | ["srv", tr] =>
+    if tr = "local" ∨ tr = "tcp" then
+      ({ d with srv := some ({ started := true, routerUp := true, wsStarted := true, ovClosed := false,
+                               tsClosed := false, dbOpen := true, dbFile := true }, {}) }, "ok")
+    else (d, "bad-op")
+  | ["srvstart"] =>
+    match d.srv with
+    | some (sv, ov) =>
+      let i := ov.insts.length
+      let ov := (ovStep ov .create).getD ov
+      let ov := (ovStep ov (.decide i)).getD ov
+      let (ov, res) := match ovStep ov (.bind i) with
+        | some ov' => (ov', "ok")
+        | none => (ov, "err")
+      ({ d with srv := some (sv, ov), startedOk := d.startedOk ++ [res == "ok"] },
+        s!"start={res} insts={(ov.insts.filter (·.listed)).length}")
+    | none => (d, "bad-op")
+  | ["srvdone", i] =>
+    match d.srv, i.toNat? with
+    | some (sv, ov), some i =>
+      -- `Done` of a protocol that was started successfully, once; after `Close` it finds the
+      -- instance gone already ("Node already gone") and changes nothing
+      if d.startedOk[i]? = some true ∧ ¬ d.doneL.contains i then
+        let ov' := (ovStep ov (.done i)).getD ov
+        ({ d with srv := some (sv, ov'), doneL := i :: d.doneL }, s!"insts={(ov'.insts.filter (·.listed)).length}")
+      else (d, "bad-op")
+    | _, _ => (d, "bad-op")
+  | ["srvgrace", ms] =>
+    -- the time a tree is kept after its last instance finished (no influence on the model:
+    -- `c10_close_terminates` holds for every timing of the cleaners)
+    match d.srv, ms.toNat? with
+    | some _, some _ => (d, "ok")
+    | _, _ => (d, "bad-op")
+  | ["srvchurn", n] =>
+    -- n protocols on n different trees, each started and finished at once: n cleaners armed
+    match d.srv, n.toNat? with
+    | some (sv, ov), some n =>
+      if n > 50 then (d, "bad-op") else
+      let ov := (List.range n).foldl (fun ov _ =>
+        let i := ov.insts.length
+        let ov := (ovStep ov .create).getD ov
+        let ov := (ovStep ov (.decide i)).getD ov
+        let ov := (ovStep ov (.bind i)).getD ov
+        (ovStep ov (.done i)).getD ov) ov
+      ({ d with srv := some (sv, ov), startedOk := d.startedOk ++ List.replicate n false },
+        s!"insts={(ov.insts.filter (·.listed)).length}")
+    | _, _ => (d, "bad-op")
+  | ["srvclose"] =>
+    match d.srv with
+    | some (sv, ov) =>
+      let (sv', res) := serverClose sv
+      let ov' := (ovStep ov .close).getD ov
+      ({ d with srv := some (sv', ov') },
+        s!"close={match res with | .ok => "ok" | .err => "err"} insts={(ov'.insts.filter (·.listed)).length}")
+    | none => (d, "bad-op")
   | _ => (d, "bad-op")
 
 end Drv
